@@ -21,7 +21,7 @@ import (
 func TestMain(m *testing.M) { hx.Main(m) }
 
 type spec struct {
-	Kind  string `json:"kind"` // fanout | pipeline | outcome | reqretain | newmsg
+	Kind  string `json:"kind"` // fanout | pipeline | reusebuf | outcome | rawfan | peerloss | ownbody | resize | stallloss | reqretain | newmsg
 	Pat   string `json:"pat,omitempty"`
 	Tran  string `json:"tran,omitempty"`
 	N     int    `json:"n,omitempty"`
@@ -62,6 +62,20 @@ func TestC17(t *testing.T) {
 		for _, tr := range []string{"inproc", "tcp", "ipc"} {
 			cases = append(cases, mon.CaseSpec{Name: "ownbody/" + tr, Spec: spec{Kind: "ownbody", Tran: tr}})
 		}
+		for _, p := range rzProtos {
+			cases = append(cases, mon.CaseSpec{Name: "resize/" + p.name + "/vt", Spec: spec{Kind: "resize", Pat: p.name, Tran: "vt", N: r.Pick(2, 3) + rnd.Intn(r.Pick(2, 6)), Yield: rnd.Intn(2) == 0}})
+			if p.peer != "" && (r.Thorough() || rnd.Intn(2) == 0) { // (quick tier: half of them per round)
+				tr := trans[rnd.Intn(len(trans))]
+				cases = append(cases, mon.CaseSpec{Name: "resize/" + p.name + "/" + tr, Spec: spec{Kind: "resize", Pat: p.name, Tran: tr, N: r.Pick(2, 3) + rnd.Intn(r.Pick(2, 6)), Yield: rnd.Intn(2) == 0}})
+			}
+		}
+		for _, p := range slProtos {
+			cases = append(cases, mon.CaseSpec{Name: "stallloss/" + p.snd + "/inproc", Spec: spec{Kind: "stallloss", Pat: p.snd, Tran: "inproc", Yield: rnd.Intn(2) == 0}})
+			if r.Thorough() || rnd.Intn(3) == 0 { // (the stream transports need volume to stall a write: a third of them per round in the quick tier)
+				tr := trans[1+rnd.Intn(len(trans)-1)]
+				cases = append(cases, mon.CaseSpec{Name: "stallloss/" + p.snd + "/" + tr, Spec: spec{Kind: "stallloss", Pat: p.snd, Tran: tr, Yield: rnd.Intn(2) == 0}})
+			}
+		}
 		cases = append(cases, mon.CaseSpec{Name: "reqretain", Spec: spec{Kind: "reqretain", N: 3 + rnd.Intn(3)}})
 		cases = append(cases, mon.CaseSpec{Name: "newmsg", Spec: spec{Kind: "newmsg"}})
 	}
@@ -87,6 +101,10 @@ func TestC17(t *testing.T) {
 			runOwnBody(c, sp)
 		case "peerloss":
 			runPeerLoss(c, sp)
+		case "resize":
+			runResize(c, sp)
+		case "stallloss":
+			runStallLoss(c, sp)
 		case "reqretain":
 			runReqRetain(c, sp)
 		case "newmsg":
@@ -169,6 +187,11 @@ type keeper struct {
 	mu  sync.Mutex
 	win []held
 	n   int
+	// all: nothing is released before flush, and every message handed out is checked against
+	// the ones still held (by identity).  tag is appended to the signatures (the workload).
+	all  bool
+	tag  string
+	ptrs map[*mangos.Message]string
 }
 
 func (k *keeper) take(who string, m *mangos.Message, expect []byte) {
@@ -178,14 +201,22 @@ func (k *keeper) take(who string, m *mangos.Message, expect []byte) {
 		if bytes.Contains(m.Body, bytes.Repeat([]byte{0xDB}, 8)) {
 			cls = "poison"
 		}
-		c.Violate("owner/received-body-wrong:"+cls, "%s received a body that differs from what was sent (%s): got %d bytes %x..., want %d bytes %x...", who, cls, len(m.Body), head(m.Body), len(expect), head(expect))
+		c.Violate("owner/received-body-wrong:"+cls+k.tag, "%s received a body that differs from what was sent (%s): got %d bytes %x..., want %d bytes %x...", who, cls, len(m.Body), head(m.Body), len(expect), head(expect))
 	}
 	h := held{m: m, hdr: append([]byte{}, m.Header...), body: append([]byte{}, m.Body...), who: who}
 	k.mu.Lock()
+	if k.all {
+		if prev, dup := k.ptrs[m]; dup {
+			k.mu.Unlock()
+			c.Violate("owner/held-message-handed-out-again"+k.tag, "%s: RecvMsg returned a message the application already holds and has not freed (it was handed to %s)", who, prev)
+			return // (it is in the window once; it is verified and freed once)
+		}
+		k.ptrs[m] = who
+	}
 	k.win = append(k.win, h)
 	k.n++
 	var old *held
-	if len(k.win) > 16 {
+	if len(k.win) > 16 && !k.all {
 		o := k.win[0]
 		k.win = k.win[1:]
 		old = &o
@@ -211,13 +242,13 @@ func (k *keeper) release(h held) {
 		if bytes.Contains(h.m.Body, bytes.Repeat([]byte{0xDB}, 8)) {
 			cls = "poison"
 		}
-		c.Violate("owner/held-body-changed:"+cls, "%s: the body of a message returned by RecvMsg changed while the application held it (%s): now %x..., on receipt %x...", h.who, cls, head(h.m.Body), head(h.body))
+		c.Violate("owner/held-body-changed:"+cls+k.tag, "%s: the body of a message returned by RecvMsg changed while the application held it (%s): now %x..., on receipt %x...", h.who, cls, head(h.m.Body), head(h.body))
 	}
 	if !bytes.Equal(h.m.Header, h.hdr) {
-		c.Violate("owner/held-header-changed", "%s: the header of a message returned by RecvMsg changed while the application held it: now %x, on receipt %x", h.who, h.m.Header, h.hdr)
+		c.Violate("owner/held-header-changed"+k.tag, "%s: the header of a message returned by RecvMsg changed while the application held it: now %x, on receipt %x", h.who, h.m.Header, h.hdr)
 	}
 	if rc := mangos.VerifRefcnt(h.m); rc != 1 {
-		c.Violate("owner/held-message-shared", "%s: a message returned by RecvMsg has reference count %d (the application must be its only owner)", h.who, rc)
+		c.Violate("owner/held-message-shared"+k.tag, "%s: a message returned by RecvMsg has reference count %d (the application must be its only owner)", h.who, rc)
 	}
 	for i := range h.m.Body {
 		h.m.Body[i] = 0xEE
